@@ -9,23 +9,31 @@ LEAN_MODULE = "Ctrmml.Properties.C03"
 THEOREMS = ["C03_break_offset", "C03_jump_target", "C03_finish_last", "C03_stream_ends_with_terminator",
             "C03_codec_never_reads_outside_partial", "C03_codec_never_reads_outside_loops_partial",
             "C03_codec_never_reads_outside_segno_partial", "C03_stream_terminated_partial",
-            "C03_stream_terminated_segno_partial", "C03_stream_terminated_loops_partial", "C03_track_wellformed_partial"]
+            "C03_stream_terminated_segno_partial", "C03_stream_terminated_loops_partial", "C03_track_wellformed_partial",
+            "C03_stream_at_offset_wellformed_partial", "C03_song_wellformed_partial"]
 LEVEL = "proof"
 STREAM = "conv.seq"
 CHUNK = 100
 TECHNIQUE = "Lean 4 theorems on the encoder's address arithmetic (loop-break back-patch, loop-back offset, terminator) + well-formedness walker and interpreter run on the real bytes + differential correspondence model<->mdsdrv.cpp"
 LEVEL_TEXT = ("Machine-checked theorems over the model of convert_track for the three places where an address is computed: the back-patched LPB/LPBL offset lands exactly on the "
               "instruction after the loop end (short and long form), the JUMP offset resolves to the position recorded at the loop point, FINISH is the last byte. Second layer (single "
-              "track streams, all inputs): for every event list whose bracket structure consists of rests/notes/ties (1..65535 ticks), slur and commands, nested counted loops with and "
-              "without break, on both sides of a depth-0 loop point + loop-back jump, the emitted stream ends with its terminator, the instruction walker accepts it (balanced loops, "
-              "break targets, jump target on a depth-0 boundary) and the interpreter never stops with badRead/badOp/noLength/loopUnderflow for any fuel, tick limit and register "
-              "contents. The whole-chunk "
-              "statement (C03_full_statement: every stream passes the instruction walker, interpretation finishes and every loop-back round passes >= 1 tick) is decided per case by "
-              "Spec/SeqWf + Spec/SeqInterp run on the REAL bytes of generated and degenerate songs; the model reproduces the real chunk byte for byte.")
-LEVEL_NOTE = ("Trusted: Lean kernel; Model/MdsCodec+MdsConv (agreement with mdsdrv.cpp by differential testing); Spec/SeqWf and Spec/SeqInterp (reconstructed MDSDRV format). "
-              "Proved part = address arithmetic of the codec + per-track well-formedness/safety of convert_track output on the fragment above (no calls, no drum mode, loop point at depth 0, "
-              "streams < 64 KiB); chunk tables, subroutines, progress per loop-back round = oracle on real bytes (partial). Known finding: a loop point inside a "
-              "counted loop is accepted and compiled to a jump into the loop (D21).")
+              "streams, all inputs): for every event list whose bracket structure consists of rests/notes/ties (0..65535 ticks), slur and commands, subroutine calls, nested counted "
+              "loops with any number of breaks per loop, on both sides of a depth-0 loop point, in the three shapes end_hook produces, at any offset of a chunk: the emitted stream ends "
+              "with its terminator, the instruction walker accepts it (balanced loops, break targets, jump target on a depth-0 boundary of the stream) and the interpreter never stops "
+              "with badRead/badOp/noLength/loopUnderflow. Third layer: C03_song_wellformed_partial — for every song of the fragment (see C02; since round 4 with drum mode: notes in drum "
+              "mode through their routines, DRUM_MODE switched at the top level of channel tracks, subroutines called in drum mode) and every channel track in the "
+              "domain: the walker accepts the stream the track table points at, the interpreter never reads outside / meets an unknown opcode / a missing length / an empty loop stack "
+              "through all calls and returns however often the loop-back is followed, and a finished run with the jump followed twice passes >= 1 tick of note or rest time between the "
+              "loop marks. The whole-chunk statement (C03_full_statement: every stream incl. unreferenced and drum/macro ones passes the walker, every loop-back round passes >= 1 "
+              "tick) outside that fragment is decided per case by Spec/SeqWf + Spec/SeqInterp run on the REAL bytes of generated and degenerate songs; the model reproduces the real chunk "
+              "byte for byte; the judge marks the cases that are instances of the whole-song theorem (ok proved-fragment).")
+LEVEL_NOTE = ("Trusted: Lean kernel; Model/MdsCodec+MdsConv+MdsFile (agreement with mdsdrv.cpp by differential testing); Spec/SeqWf and Spec/SeqInterp (reconstructed MDSDRV format). "
+              "Proved part = address arithmetic of the codec + per-stream well-formedness/safety at any offset + whole songs of the fragment, drum mode included (partial: chunk < 64 KiB, "
+              "<= 1 loop point per channel track, called tracks without loop point / drum-mode switch, drum-mode switches outside loops, routine tracks = timeless commands before "
+              "their first note, loop section ending in the drum state it starts in, no pitch envelope, platform commands agreeing between converter and timeline, loop point at depth 0); the walker on "
+              "unreferenced / routine / macro streams themselves "
+              "and songs outside the domain = oracle on real bytes. Known finding: a loop point inside a counted loop is accepted and compiled to a jump into "
+              "the loop (D21).")
 RULE = ("the C02 generators (adjacency sweep + structured songs) plus a degenerate family: empty track, loop point last, loop point followed only by zero-time commands, "
         "command-only loop bodies, single call, counts {1,2,255}, loop point inside loops and subroutines; non-trivial = has loop/call/segno; distinct by request text")
 EXPLANATION = "SeqWf.checkAll + interpreter (loop-back followed twice) on the real seq bytes; model vs real converter byte-exact"
@@ -51,6 +59,9 @@ DEGENERATE = [
     # loop point inside a subroutine
     "convwf T0:2.36.2.0,8.100.0.0,2.36.2.0 T100:2.30.1.0,7.0.0.0,2.31.1.0",
 ]
+
+
+extra_fail = c02.extra_fail
 
 
 def cases(rng, tier):
@@ -120,6 +131,8 @@ def finding_key(case, impl, judge):
         return "crash:" + (m.group(1) if m else "unknown")
     if segno_in_loop(case.req):
         return "segno-in-loop"
+    if c02.drum_dynamic(case.req):
+        return "drum-mode-dynamic"
     if "spans no note or rest time" in judge:
         return "zero-time-loop"
     m = re.search(r"Bad\.(\w+)|Stop\.(\w+)", judge)
